@@ -22,6 +22,8 @@
      lookup_cid_opt, lookup_cid, lookup_notdef, all_cid
                               File.LookupCID (chain loop, then the file's own LookupNotdefCID), File.LookupNotdefCID, File.All
      lookup_cid_prefix        LookupCID BEFORE the F31 repair; kept to document F31
+     parent_maps              the omission test of SetMapping (Parent.lookupMapped gives the same CID)
+     set_mapping_bytes_prefix SetMapping BEFORE the F34 repair (omission test Parent.LookupCID == cid); kept to document F34
      lookup_tu, all_tu, get_mapping          ToUnicodeFile.Lookup, .All, .GetMapping
 
    Text is modelled as the list of its runes.  For strings that are valid UTF-8 (every rune a
@@ -440,8 +442,26 @@ Definition all_cid (csr : list csrange) (f : cfile) : list (N * N) :=
 Definition to_crange (r : grange N) : crange :=
   let '(f, l, vals) := r in (f, l, hd 0 vals).
 
+(* `parentCID, ok := f.Parent.lookupMapped(buf); ok && parentCID == cid`: only a MAPPING of the parent
+   chain makes an entry redundant (lookupMapped is lookup_cid_opt) *)
+Definition parent_maps (p : cfile) (e : bytes * N) : bool :=
+  match lookup_cid_opt p (fst e) with
+  | Some w => w =? snd e
+  | None => false
+  end.
+
 (* SetMapping on the byte strings AppendCode produced *)
 Definition set_mapping_bytes (csr : list csrange) (f : cfile) (es : list (bytes * N)) : cfile :=
+  let kept := match c_parent f with
+              | Some p => filter (fun e => negb (parent_maps p e)) es
+              | None => es
+              end in
+  let sr := compress cid_link cid_vals kept in
+  CFile csr (fst sr) (map to_crange (snd sr)) (c_nd_singles f) (c_nd_ranges f) (c_parent f).
+
+(* SetMapping as it was BEFORE the F34 repair (`f.Parent.LookupCID(buf) == cid`: also an answer from
+   the parent's notdef entries made an entry redundant); kept to document F34 *)
+Definition set_mapping_bytes_prefix (csr : list csrange) (f : cfile) (es : list (bytes * N)) : cfile :=
   let kept := match c_parent f with
               | Some p => filter (fun e => negb (lookup_cid p (fst e) =? snd e)) es
               | None => es
